@@ -21,7 +21,7 @@ func checkC18(c *chk.Ctx) {
 	c.Decided = []string{
 		"R18a the shard id generator only moves forward, by exactly the number of ids handed to GenerateShards from that generator value; shard ids in the status come from GenerateShards",
 		"R18b a shard's hash range is only written when the shard is created (or cloned)",
-		"R18c producers map Min->MinHashInclusive and Max->MaxHashInclusive, the client maps them to MinInclusive/MaxInclusive, and both client predicates compare inclusively on both bounds; every non-deleting shard is published",
+		"R18c producers map Min->MinHashInclusive and Max->MaxHashInclusive, the client maps them to MinInclusive/MaxInclusive, and both client predicates (membership, overlap) agree with the inclusive-range truth table for every ordering of their operands; every non-deleting shard is published",
 		"R18d the only routing hash is the client strategy's xxhash3-32, and both producers advertise that router",
 		"R18f a new namespace gets a shard for every generated range (open finding F19: a failed ensemble selection skips the shard but still creates the namespace)",
 	}
@@ -77,7 +77,7 @@ func ruleR18a(h *H) {
 				why = "GenerateShards is not based on the id generator"
 				continue
 			}
-			if !ir.SameExpr(stripConv(ir.Canon(bo.Y)), stripConv(ir.Canon(n))) {
+			if !ir.SameExpr(stripConv(ir.Canon(bo.Y)), stripConv(ir.Canon(n))) && !isLenOf(stripConv(ir.Canon(bo.Y)), g) {
 				why = "the generator advances by " + ir.Describe(bo.Y) + " but " + ir.Describe(n) + " ids were generated: ids handed out can be generated again for the next namespace"
 				continue
 			}
@@ -184,7 +184,7 @@ func storeAddr(in ssa.Instruction) ssa.Value {
 
 func ruleR18c(h *H) {
 	const rule = "R18c"
-	h.Rule(rule, "K7", "Min/Max -> MinHashInclusive/MaxHashInclusive at every producer; MinHashInclusive/MaxHashInclusive -> MinInclusive/MaxInclusive at the client; the routing predicate and the overlap test compare inclusively on both bounds; only deleting shards are left out of the published assignments", 7)
+	h.Rule(rule, "K7", "Min/Max -> MinHashInclusive/MaxHashInclusive at every producer; MinHashInclusive/MaxHashInclusive -> MinInclusive/MaxInclusive at the client; the routing predicate and the overlap test agree with the inclusive-range truth tables; only deleting shards are left out of the published assignments", 5)
 	// producers
 	for _, pair := range [][2]string{{"MinHashInclusive", "Min"}, {"MaxHashInclusive", "Max"}} {
 		ws := h.P.FieldWrites("proto", "Int32HashRange", pair[0])
@@ -224,38 +224,14 @@ func ruleR18c(h *H) {
 			h.Anchor(rule, "client conversion to HashRange."+pair[0])
 		}
 	}
-	// predicates: comparisons over HashRange bounds in oxia/internal are inclusive
+	// predicates over HashRange bounds in oxia/internal: decided by their truth table, not by
+	// the comparison operators they happen to use
 	n := 0
 	for _, fn := range h.P.Funcs {
 		if ir.RelPkg(ir.PkgPathOf(fn)) != "oxia/internal" {
 			continue
 		}
-		ir.Instrs(fn, func(in ssa.Instruction) {
-			bo, ok := in.(*ssa.BinOp)
-			if !ok {
-				return
-			}
-			isBound := func(v ssa.Value) (string, bool) {
-				r, ok := ir.FieldLoadOf(ir.Canon(v))
-				if ok && r.Struct != nil && r.Struct.Obj().Name() == "HashRange" {
-					return r.Field, true
-				}
-				return "", false
-			}
-			_, lb := isBound(bo.X)
-			_, rb := isBound(bo.Y)
-			if !lb && !rb {
-				return
-			}
-			switch bo.Op {
-			case token.LEQ, token.GEQ:
-				n++
-				h.OK(rule, fmt.Sprintf("bound comparison #%d in %s", n, ir.FuncName(fn)), h.pos(in), "inclusive ("+bo.Op.String()+")")
-			case token.LSS, token.GTR:
-				n++
-				h.Bad(rule, fmt.Sprintf("bound comparison #%d in %s", n, ir.FuncName(fn)), h.pos(in), "a hash-range bound is compared with "+bo.Op.String()+": the bounds are inclusive, so the hash equal to the bound belongs to no shard / adjacent ranges are treated wrongly")
-			}
-		})
+		n += hashRangePredicate(h, rule, fn)
 	}
 	if n == 0 {
 		h.Anchor(rule, "comparisons over HashRange bounds in oxia/internal")
@@ -410,4 +386,164 @@ func ruleR18f(h *H) {
 	if n == 0 {
 		h.Anchor(rule, "loop over GenerateShards(...) in the coordinator")
 	}
+}
+
+// hashRangePredicate decides a function of oxia/internal that compares HashRange bounds.
+// A bool function over one range and one other operand must be the inclusive membership
+// test (min <= x <= max); a bool function over two ranges must be the intersection test
+// of two inclusive ranges. Each is executed abstractly for every ordering of small
+// representative values (K11). Bound comparisons anywhere else are accepted when
+// inclusive (<=, >=) and undecided otherwise.
+func hashRangePredicate(h *H, rule string, fn *ssa.Function) int {
+	bases := map[ssa.Value]int{}
+	others := map[ssa.Value]bool{}
+	var cmps []*ssa.BinOp
+	boundOf := func(v ssa.Value) (string, bool) {
+		r, ok := ir.FieldLoadOf(ir.Canon(v))
+		if !ok || r.Struct == nil || r.Struct.Obj().Name() != "HashRange" {
+			return "", false
+		}
+		b := ir.Canon(r.Base)
+		if _, seen := bases[b]; !seen {
+			bases[b] = len(bases)
+		}
+		kind := "min"
+		if strings.HasPrefix(r.Field, "Max") {
+			kind = "max"
+		}
+		return fmt.Sprintf("r%d.%s", bases[b], kind), true
+	}
+	ir.Instrs(fn, func(in ssa.Instruction) {
+		bo, ok := in.(*ssa.BinOp)
+		if !ok {
+			return
+		}
+		switch bo.Op {
+		case token.LEQ, token.GEQ, token.LSS, token.GTR, token.EQL, token.NEQ:
+		default:
+			return
+		}
+		_, lb := boundOf(bo.X)
+		_, rb := boundOf(bo.Y)
+		if !lb && !rb {
+			return
+		}
+		if !lb {
+			others[ir.Canon(bo.X)] = true
+		}
+		if !rb {
+			others[ir.Canon(bo.Y)] = true
+		}
+		cmps = append(cmps, bo)
+	})
+	if len(cmps) == 0 {
+		return 0
+	}
+	h.Fn(ir.FuncName(fn))
+	res := fn.Signature.Results()
+	isPred := res.Len() == 1 && types.Identical(res.At(0).Type().Underlying(), types.Typ[types.Bool])
+	kind := ""
+	switch {
+	case isPred && len(bases) == 1 && len(others) == 1:
+		kind = "membership"
+	case isPred && len(bases) == 2 && len(others) == 0:
+		kind = "overlap"
+	}
+	if kind == "" {
+		for i, bo := range cmps {
+			name := fmt.Sprintf("bound comparison #%d in %s", i+1, ir.FuncName(fn))
+			if bo.Op == token.LEQ || bo.Op == token.GEQ {
+				h.OK(rule, name, h.pos(bo), "inclusive ("+bo.Op.String()+")")
+			} else {
+				h.Unknown(rule, name, h.pos(bo), "a hash-range bound is compared with "+bo.Op.String()+" outside a membership / intersection predicate: cannot decide that the inclusive bounds are honoured")
+			}
+		}
+		return len(cmps)
+	}
+	cls := func(v ssa.Value, _ []*ssa.BasicBlock) string {
+		if n, ok := boundOf(v); ok {
+			return n
+		}
+		if others[ir.Canon(v)] {
+			return "x"
+		}
+		return ""
+	}
+	name := kind + " predicate " + ir.FuncName(fn)
+	eval := func(c ir.AbsCase) (bool, bool, string) {
+		path, ok, why := ir.AbsWalk(fn.Blocks[0], nil, nil, cls, c)
+		if !ok {
+			return false, false, why
+		}
+		ret, isRet := path[len(path)-1].Instrs[len(path[len(path)-1].Instrs)-1].(*ssa.Return)
+		if !isRet || len(ret.Results) != 1 {
+			return false, false, "path does not end in a return of the predicate's value"
+		}
+		return ir.AbsBool(ret.Results[0], path, cls, c)
+	}
+	cases, bad := 0, ""
+	check := func(c ir.AbsCase, want bool, desc string) bool {
+		cases++
+		got, known, why := eval(c)
+		if !known {
+			h.Unknown(rule, name, h.P.Pos(fn.Pos()), "cannot evaluate the predicate for "+desc+": "+why)
+			return false
+		}
+		if got != want && bad == "" {
+			bad = fmt.Sprintf("for %s the predicate answers %v, the inclusive ranges require %v", desc, got, want)
+		}
+		return true
+	}
+	if kind == "membership" {
+		for mn := int64(0); mn <= 2; mn++ {
+			for mx := mn; mx <= 2; mx++ {
+				for x := int64(0); x <= 3; x++ {
+					if mn == 0 && x == 0 && false {
+						continue
+					}
+					c := ir.AbsCase{Vals: map[string]int64{"r0.min": mn + 1, "r0.max": mx + 1, "x": x}}
+					if !check(c, mn+1 <= x && x <= mx+1, fmt.Sprintf("range [%d,%d] and hash %d", mn+1, mx+1, x)) {
+						return 1
+					}
+				}
+			}
+		}
+	} else {
+		for a0 := int64(0); a0 <= 3; a0++ {
+			for a1 := a0; a1 <= 3; a1++ {
+				for b0 := int64(0); b0 <= 3; b0++ {
+					for b1 := b0; b1 <= 3; b1++ {
+						c := ir.AbsCase{Vals: map[string]int64{"r0.min": a0, "r0.max": a1, "r1.min": b0, "r1.max": b1}}
+						lo, hi := a0, a1
+						if b0 > lo {
+							lo = b0
+						}
+						if b1 < hi {
+							hi = b1
+						}
+						if !check(c, lo <= hi, fmt.Sprintf("ranges [%d,%d] and [%d,%d]", a0, a1, b0, b1)) {
+							return 1
+						}
+					}
+				}
+			}
+		}
+	}
+	h.Verdict(bad == "", rule, name, h.P.Pos(fn.Pos()), fmt.Sprintf("agrees with the inclusive-range %s table in all %d value orderings", kind, cases), bad+": a hash equal to a bound belongs to no shard, or adjacent / nested ranges are treated wrongly")
+	return 1
+}
+
+// isLenOf: v is len(<the result of call g>) — for GenerateShards the ids handed out are
+// base .. base+len-1, so advancing the generator by the length is exactly right.
+func isLenOf(v ssa.Value, g ssa.CallInstruction) bool {
+	c, ok := v.(*ssa.Call)
+	if !ok {
+		return false
+	}
+	b, isB := c.Call.Value.(*ssa.Builtin)
+	if !isB || b.Name() != "len" || len(c.Call.Args) != 1 {
+		return false
+	}
+	gv, _ := g.(ssa.Value)
+	return gv != nil && ir.Canon(c.Call.Args[0]) == gv
 }
